@@ -1,7 +1,7 @@
 (* C10 — store-rewriting commands never break a passing store; init/regenerate
    exemptions make one. *)
 Require Import Base Extracted Criteria Search AuditGraph DepGraph Resolve Update Commands.
-Require Import SearchProofs ResolveProofs UpdateProofs UpdateKeep EndToEnd.
+Require Import SearchProofs ResolveProofs ResolveTheorems UpdateProofs UpdateKeep EndToEnd SuggestProofs SuggestHeal CertifyProofs Witness.
 Local Open Scope N_scope.
 
 (* In RegenerateExemptions mode (init, regenerate exemptions) the search for a
@@ -64,6 +64,22 @@ Proof. exact trust_cleanup_preserves. Qed.
 Theorem C10_import_cleanup_preserves : forall inp s, store_ok inp s -> vets inp s -> vets inp (update_store inp s (fun _ => mode_import)).
 Proof. exact import_cleanup_preserves. Qed.
 (* in general: ANY update whose searches are not in RegenerateExemptions mode *)
+(* `certify` as a whole — the audit the user asked for is added to the target crate, then the targeted clean-up
+   runs: a passing store stays passing unless the new audit itself collides with a violation entry *)
+Theorem C10_certify_preserves_vetting : forall inp s target a,
+  store_ok inp s -> (forall c, In c (au_crit a) -> c < N.of_nat (ct_len (st_criteria s))) ->
+  vets inp s ->
+  (forall i p, pkg_at inp s i p -> pk_third_party p = true ->
+     violation_conflicts (st_criteria s) (store_for (add_audit_store s target a) (pk_name p)) = []) ->
+  vets inp (cmd_certify target a inp s).
+Proof. exact certify_preserves_vetting. Qed.
+Example C10_certify_nonvacuous :
+  let a := new_audit (Some 0) 2 [1] in
+  has_errors (resolve w_graph w_store) = false /\
+  has_errors (resolve w_graph (cmd_certify 0 a w_graph w_store)) = false /\
+  length (ps_local (store_for (cmd_certify 0 a w_graph w_store) 0)) = 3%nat.
+Proof. vm_compute. auto. Qed.
+
 Theorem C10_update_preserves_vetting : forall inp s mode,
   store_ok inp s -> (forall name, um_search (mode name) <> RegenerateExemptions) ->
   vets inp s -> vets inp (update_store inp s mode).
@@ -91,4 +107,5 @@ Print Assumptions C10_certify_cleanup_preserves.
 Print Assumptions C10_trust_cleanup_preserves.
 Print Assumptions C10_import_cleanup_preserves.
 Print Assumptions C10_update_preserves_vetting.
+Print Assumptions C10_certify_preserves_vetting.
 Print Assumptions C10_init_and_regenerate_certify.
